@@ -297,6 +297,12 @@ def include_oracle(rng):
         write_tree(root, files)
         mp = os.path.join(root, main)
         text = open(mp).read()
+        if rng.random() < 0.25:
+            # the HERA-C wrapper around the top-level program (its text is pasted in between the braces just the same):
+            # seed C16g lost track of the open brace while an included file was being parsed
+            text = "#include <HERA.h>\nvoid HERA_main()\n{\n" + text + "}\n"
+            open(mp, "w").write(text)
+            stats["wrapped"] = 1
 
         def go():
             with captured():
